@@ -8,6 +8,7 @@ from __future__ import annotations
 
 import contextlib
 import copy
+import functools
 import io
 import warnings
 
@@ -113,6 +114,10 @@ def mutable_ids(obj, acc=None, depth=0):
                 walk(v, d + 1)
         elif isinstance(x, Opaque):
             acc.setdefault(id(x), x)
+        elif isinstance(x, functools.partial):
+            acc.setdefault(id(x), x)
+            walk(list(x.args), d + 1)
+            walk(x.keywords, d + 1)
 
     for k, v in vars(obj).items():
         if k == "_parent":
@@ -397,7 +402,7 @@ class C18Session(Session):
                 ok = got == v
             else:
                 a, b = np.asarray(got, dtype=float), np.squeeze(np.asarray(v, dtype=float))
-                ok = a.shape == b.shape and np.allclose(a, b)
+                ok = a.shape == b.shape and np.allclose(a, b, equal_nan=True)
             if not ok:
                 raise Violation("override_not_applied", f"copy.{k} != override", op="copy", attr=k)
         sub_tops = {k[6:] for k, v in kw.items() if isinstance(v, dict) and "$substyle" in v}
@@ -503,6 +508,12 @@ class C18Session(Session):
                         w.register(s)
                         self.group.append(g)
                         obj.add(s)
+                elif kind == "field_func_state":
+                    ff = getattr(obj, "field_func", None)
+                    if isinstance(ff, functools.partial):
+                        ff.keywords["params"]["amp"] = float(op.get("value", 2))
+                        ff.keywords["params"]["hist"].append(op.get("value", 2))
+                        self.probe("stateful_field_func_mutated")
                 elif kind == "user_attr":
                     # user state hung on the object (mutable): copies must get their own
                     if not hasattr(obj, "userdata"):
@@ -648,7 +659,7 @@ class Sim:
             "fail_variants": rng.random() < 0.7,
             "mutations": [m for m in ["path", "set_attr", "style_update", "style_update_dict", "style_assign_dict",
                                       "style_attr", "add_trace", "trace_edit", "inplace_getter", "tree_add",
-                                      "tree_remove", "children_styles", "user_attr"] if rng.random() < 0.7] or ["path"],
+                                      "tree_remove", "children_styles", "user_attr", "field_func_state"] if rng.random() < 0.7] or ["path"],
         }
 
     def new_world_spec(self, rng, cfg):
@@ -657,6 +668,8 @@ class Sim:
         for _ in range(cfg["n_obj"]):
             cls = rng.choice(cfg["classes"])
             s = gen.obj_spec(rng, cls, rng.choice([1, L]), pixel_kind=rng.choice(gen.PIXELS))
+            if cls == "CustomSource" and rng.random() < 0.6:
+                s["kw"]["field_func"] = {"partial_amp": rng.choice([1, 2, 0.5])}
             self._style_spec(rng, s)
             objs.append(s)
         free = list(range(len(objs)))
@@ -777,6 +790,12 @@ class Sim:
         obj = w.objs[o]
         cls = type(obj).__name__
         kind = rng.choice(cfg["mutations"])
+        if kind == "field_func_state":
+            cs = [i for i in range(n) if isinstance(getattr(w.objs[i], "_field_func", None), functools.partial)]
+            if cs:
+                o = rng.choice(cs)
+                obj = w.objs[o]
+                cls = type(obj).__name__
         op = {"op": "mutate", "kind": kind, "o": o}
         if kind == "path":
             op["pop"] = pathops.gen_path_op(rng, o, len(obj._position), kinds=("move", "rotate", "setter"),
@@ -811,6 +830,8 @@ class Sim:
             op.update(name=rng.choice(names), value=rng.choice([0.5, 1.0, -0.25]))
         elif kind == "tree_remove":
             op["which"] = rng.randrange(4)
+        elif kind == "field_func_state":
+            op["value"] = rng.choice([2, 3, 5, -1])
         return op
 
     def gen_op(self, rng, cfg, sess):
